@@ -33,6 +33,9 @@ def gen_batch(r, bi, services=False, can=False, n_random=(6, 9), out_of_order=Tr
     # ids declared out of order with asymmetric widths
     add(p + "Ord", [("c", 9, ("u", 5)), ("a", 2, ("u", 11)), ("b", 4, ("i", 3)), ("d", 0, ("f32",))] if out_of_order else [("d", 0, ("f32",)), ("a", 2, ("u", 11)), ("b", 4, ("i", 3)), ("c", 9, ("u", 5))])
     add(p + "In", [("p", 1, ("i", 6)), ("q", 3, ("u", 3))] if not out_of_order else [("q", 3, ("u", 3)), ("p", 1, ("i", 6))])
+    # large field ids, two of them equal in their low 16 bits, declared out of id order
+    add(p + "BigId", [("hi", 65536 + 7, ("u", 12)), ("lo", 7, ("u", 5)), ("top", (1 << 31) + 3, ("i", 9)), ("mid", 70000, ("u", 16))] if out_of_order
+        else [("lo", 7, ("u", 5)), ("hi", 65536 + 7, ("u", 12)), ("mid", 70000, ("u", 16)), ("top", (1 << 31) + 3, ("i", 9))])
     add(p + "Nest", [("x", 0, ("u", 2)), ("n", 1, ("struct", p + "In")), ("m", 2, ("arr", ("struct", p + "In"), 2)), ("y", 3, ("i", 9))])
     add(p + "Cont", [
         ("a", 0, ("arr", ("u", r.choice([3, 8, 12])), 3)),
@@ -104,11 +107,22 @@ def gen_batch(r, bi, services=False, can=False, n_random=(6, 9), out_of_order=Tr
             decls.append({"kind": "impl", "protocol": "can", "type": nm, "name": None, "items": [("field", "id", idv), ("field", "bus", ("s", bus))]})
             can_bindings.append((nm, idv, bus))
             k += 1
+    nobus = None
+    if can:
+        # a CAN binding that declares no bus (outside C18's quantifier, but part of real schemas): frames
+        # carrying its id on any named bus match no (id, bus) pair
+        add("NoBus%d" % bi, [("v", 0, ("u", 8))])
+        nb_id = next(x for x in range(1000, 2047) if all(x != i for _, i, _ in can_bindings))
+        decls.append({"kind": "impl", "protocol": "can", "type": "NoBus%d" % bi, "name": None, "items": [("field", "id", nb_id)]})
+        nobus = nb_id
     if services:
         # every payload struct plays exactly one role in one service (see known finding K7)
         a, b, c, d = p + "In", p + "Carr", p + "Enum", p + "Ord"
         decls.append({"kind": "service", "name": p + "Svc", "id": r.randint(0, 200), "methods": [
             {"name": "Get", "id": r.randint(0, 100), "input": a, "output": b},
             {"name": "Put", "id": r.randint(101, 254), "input": c, "output": d},
+            {"name": "Sync", "id": 255, "input": p + "Flt", "output": d},  # two methods may share an output struct
         ]})
+    if nobus is not None:
+        can_bindings.append(("<no-bus>", nobus, None))
     return decls, can_bindings
